@@ -230,3 +230,47 @@ func TestNondeterminismIsReported(t *testing.T) {
 		cur = nil
 	}
 }
+
+// a nil channel case is never ready: the select takes the other case, and a
+// select with only nil channels blocks for ever; default still works.
+func TestNilChannels(t *testing.T) {
+	got := outcomes(t, func(h *th) {
+		var nilc *Chan
+		c := Make(1)
+		GoNamed("T", func() {
+			SendAt("T.s", c, 5)
+			i, v, _ := Select("T.sel", RecvCase(nilc), SendCase(nilc, 1), RecvCase(c))
+			h.obs = append(h.obs, fmt.Sprintf("%d%v", i, v))
+			j, _, _ := Select("T.sel2", RecvCase(nilc), DefaultCase())
+			h.obs = append(h.obs, fmt.Sprintf("d%d", j))
+			Select("T.sel3", RecvCase(nilc), SendCase(nilc, 1))
+			h.obs = append(h.obs, "unreachable")
+		})
+	})
+	expect(t, got, "25,d1 | T:blocked@T.sel3")
+}
+
+// Mutex: the critical sections never overlap, Lock blocks while held.
+func TestMutex(t *testing.T) {
+	got := outcomes(t, func(h *th) {
+		var mu Mutex
+		c := Make(0)
+		in := 0
+		body := func(name string) func() {
+			return func() {
+				mu.Lock()
+				in++
+				if in != 1 {
+					h.obs = append(h.obs, "overlap")
+				}
+				Select(name+".yield", RecvCase(c), DefaultCase()) // a scheduling point inside the section
+				in--
+				mu.Unlock()
+				h.obs = append(h.obs, name)
+			}
+		}
+		GoNamed("A", body("A"))
+		GoNamed("B", body("B"))
+	})
+	expect(t, got, "A,B | A:finished B:finished")
+}
